@@ -101,6 +101,7 @@ def svd(ctx, shape, index, ortho_l, ortho_r, cplx):
             # (orthonormalised here with NumPy QR, independently of the code under test)
             cs = _pre_ortho(cs, index, not ortho_l, not ortho_r)
         t = TT(cs)
+        box['ranks_in'] = list(t.ranks)
         u, s, v = t.svd(index, ortho_l=ortho_l, ortho_r=ortho_r)
         box.update(t=t, u=u, s=s, v=v)
         return _compose(ctx, u.cores, _diag(ctx, s), v.cores)
@@ -111,7 +112,7 @@ def svd(ctx, shape, index, ortho_l, ortho_r, cplx):
     meta_ok(ctx, 'svd: input', t)
     ctx.check('svd: orders and dims', u.order == index and v.order == d - index and u.row_dims == shape['rows'][:index] and
               v.row_dims == shape['rows'][index:] and u.ranks[-1] == s.shape[0] == v.ranks[0])
-    ctx.check('svd: input metadata unchanged', t.ranks == shape['ranks'] and t.row_dims == shape['rows'])
+    ctx.check('svd: input metadata unchanged', t.ranks == box['ranks_in'] and t.row_dims == shape['rows'])
     if not ctx.sym:
         U = np.asarray(D.tt_full_open(ctx, u.cores)).reshape(-1, s.shape[0])
         V = np.asarray(D.tt_full_open(ctx, v.cores)).reshape(s.shape[0], -1)
